@@ -57,13 +57,22 @@ structure C where
   ctr       : Nat := 0                        -- `message.gPacketID`
 deriving Repr
 
-/-- `onPublish` in the client role: look up the callbacks registered for the topic and call each.
+/-- the dispatch loop of `onPublish` in the client role (`p.client`): an entry of `p.subs` whose
+callback pointer occurred earlier in the list (`subscriberIn(p.subs[:i], s)`) is skipped, so the
+first entry of every callback stays, with its QoS.  `seen` are the callbacks of the entries passed. -/
+def firstPerCb (seen : List Nat) : List (Nat × Nat) → List (Nat × Nat)
+  | [] => []
+  | s :: rest => if seen.contains s.1 then firstPerCb seen rest else s :: firstPerCb (s.1 :: seen) rest
+
+/-- `onPublish` in the client role: look up the callbacks registered for the topic and call each
+once.  A callback identifier stands for the `&onPublish` pointer that `service.subscribe`
+allocates per call: it identifies the Subscribe *request* (every request has its own).
 The RETAIN flag is handed on as received (`sr := !p.client && msg.Retain()` is false in this
 role: only a broker clears the flag for its live fan-out, `Model.Broker.fanoutLive`). -/
 def onPublish (c : C) (p : Pub) : List Out :=
   match c.topics.subscribers p.topic p.qos with
   | none => []
-  | some subs => subs.map (fun s => Out.deliver s.1 { p with qos := s.2 })
+  | some subs => (firstPerCb [] subs).map (fun s => Out.deliver s.1 { p with qos := s.2 })
 
 def completeOut (tag : Nat) (err : Bool) : List Out := if tag == 0 then [] else [.complete tag err]
 
